@@ -26,7 +26,7 @@ for _k in ("OMP_NUM_THREADS", "OPENBLAS_NUM_THREADS", "MKL_NUM_THREADS"):
 SX = 100000000
 CLAMP = 2000000000
 OPS = ("FluxLatticeOps", "SamplerOps", "Sampler")
-INVARIANTS = ["InvRowCount", "InvRowsFeasible", "InvReproducible", "InvChainsDiffer", "InvValidateAgrees",
+INVARIANTS = ["InvRowCount", "InvRowCountAll", "InvRowsFeasible", "InvReproducible", "InvChainsDiffer", "InvValidateAgrees",
               "InvValidateLetters", "InvModelUnchanged", "InvRefusal", "InvOracleExact"]
 NEG = {"swap_fwd_rev": "InvRowsFeasible", "no_roundup": "InvRowCount", "same_chain_seed": "InvChainsDiffer",
        "unseeded": "InvReproducible", "validate_ignores_ub": "InvValidateLetters",
@@ -192,6 +192,9 @@ def _one_run(model, cfg, want_sampler):
         else:
             s = OptGPSampler(model, thinning=cfg["thin"], processes=cfg["P"], nproj=nproj, seed=cfg["seed"])
         df = s.sample(cfg["n"], fluxes=cfg["fluxes"])
+        for _ in range(cfg.get("rounds", 1) - 1):       # further calls on the same sampler object
+            import pandas as pd
+            df = pd.concat([df, s.sample(cfg["n2"], fluxes=cfg["fluxes"])], ignore_index=True)
         return "ok", df, s
     except Exception as e:      # the outcome of the call under test
         _one_run.last_message = str(e)
